@@ -306,7 +306,13 @@ func c17Case(run *evid.Run, i int) {
 				var loaded *ipfslog.IPFSLog
 				var err error
 				lopts := &hx.LoadOpts{}
-				if (q+len(p.Where))%2 == 0 {
+				if (q+len(p.Where))%3 == 1 {
+					// few fetch slots (fewer than the log has heads / parents per entry); with a fetch timeout so that a load
+					// that cannot make progress comes back (with a hole) instead of keeping this in-process check waiting
+					lopts.Concurrency = 1 + q%2
+					lopts.TimeoutMs = 60000
+					run.Count("crash_point_reloads_with_1_or_2_fetch_slots", 1)
+				} else if (q+len(p.Where))%2 == 0 {
 					lopts.TimeoutMs = 600000 // a (very generous) fetch timeout must not change what is loaded
 					run.Count("crash_point_reloads_with_a_fetch_timeout", 1)
 				}
